@@ -360,10 +360,12 @@ impl Scenario for C17 {
                 ("jet1090::snapshot::update_snapshot (rows)", "real"),
                 ("Jet1090 state behind Arc<tokio::sync::Mutex>", "real"),
                 ("row ageing clock (hook H5)", "real code, simulated clock"),
-                ("event source (crossterm EventStream + tokio interval)", "stub (timed event list; same mapping of mouse wheel to j/k, resize carried by the next tick)"),
-                ("TUI loop body (main.rs:346-362) and expiry sweep (main.rs:368-403)", "stub (re-stated)"),
+                ("terminal device (crossterm EventStream)", "stub (timed script of keys, mouse wheel, resizes, read errors)"),
                 ("terminal", "stub (ratatui TestBackend)"),
-            ],
+            ]
+            .into_iter()
+            .chain(super::realtui::components())
+            .collect(),
             assumptions: vec![
                 "selection range is demanded after update() when it held before update() (rows are recomputed by the draw, not by the handler); a panic is a violation from any reachable state",
                 "the documented key map is the one of main.rs:635-657 / the help line of the table",
@@ -525,14 +527,14 @@ impl Shared {
     }
 }
 
-fn modifiers_of(ev: &Ev) -> KeyModifiers {
+pub fn modifiers_of(ev: &Ev) -> KeyModifiers {
     match ev {
         Ev::Mod(_, m) => KeyModifiers::from_bits_truncate(((*m & 1) * KeyModifiers::SHIFT.bits()) | (((*m >> 1) & 1) * KeyModifiers::CONTROL.bits()) | (((*m >> 2) & 1) * KeyModifiers::ALT.bits())),
         _ => KeyModifiers::NONE,
     }
 }
 
-fn keycode_of(ev: &Ev) -> Option<KeyCode> {
+pub fn keycode_of(ev: &Ev) -> Option<KeyCode> {
     Some(match ev {
         Ev::Ch(c) => KeyCode::Char(*c),
         Ev::Mod(c, _) => KeyCode::Char(*c),
@@ -558,9 +560,232 @@ fn key_name(code: &KeyCode) -> String {
     }
 }
 
-/// Spawn the event reader (stub) and the TUI task (re-stated loop around the real
-/// update() and build_table()); used by the focused C17 scenario and by the pipeline.
+// ---------------------------------------------------------------- the oracle
+// around the two real calls of the terminal task. Both the re-stated loop and
+// the loop compiled from the repository's own text (realtui.rs) go through
+// these two functions.
+
+pub struct TuiHook {
+    pub shared: Rc<RefCell<Shared>>,
+    /// rows put on the screen by the last draw, read back from the frame
+    pub shown: Option<usize>,
+}
+
+thread_local! {
+    pub static TUI_HOOK: RefCell<Option<TuiHook>> = const { RefCell::new(None) };
+}
+
+fn hook_shared() -> Rc<RefCell<Shared>> {
+    TUI_HOOK.with(|h| h.borrow().as_ref().expect("TUI hook installed").shared.clone())
+}
+fn hook_shown() -> Option<usize> {
+    TUI_HOOK.with(|h| h.borrow().as_ref().and_then(|h| h.shown))
+}
+
+/// The real `update()` with the oracle of clauses 1-3 around it. A panic of the
+/// handler is recorded as a violation and then resumed (the task dies, as it
+/// would).
+pub fn hooked_update(g: &mut tokio::sync::MutexGuard<'_, Jet1090>, event: Event) -> std::io::Result<()> {
+    let sh = hook_shared();
+    let shown = hook_shown();
+    let pre_ok = in_range(g, shown);
+    let pre_flags = flags_of(g);
+    let n = shown.unwrap_or(g.items.len());
+    let sel = g.state.selected();
+    let key = match &event {
+        Event::Key(k) => Some(k.code),
+        _ => None,
+    };
+    if let Some(code) = &key {
+        let mut s = sh.borrow_mut();
+        s.keys_handled += 1;
+        if !s.drew_once {
+            s.count("key_before_first_draw");
+            s.perturbed = true;
+        }
+        let nav = matches!(code, KeyCode::Char('j') | KeyCode::Char('k') | KeyCode::Up | KeyCode::Down) && (!pre_flags.search || matches!(code, KeyCode::Up | KeyCode::Down));
+        if nav {
+            if n == 0 {
+                s.count("nav_on_empty_table");
+            } else {
+                s.count("nav_on_nonempty_table");
+                if sel == Some(n - 1) || sel == Some(0) {
+                    s.count("wrap_around");
+                }
+            }
+        }
+    }
+    if matches!(event, Event::Error) {
+        sh.borrow_mut().count("read_error_handled");
+    }
+    exec::log_u64(0x0E00_0000 | key.map(|k| crate_hash_key(&k)).unwrap_or(0));
+    sh.borrow_mut().count("updates");
+    let what = key.as_ref().map(key_name).unwrap_or("tick".into());
+    let r = std::panic::catch_unwind(std::panic::AssertUnwindSafe(|| exec::catch("update", || crate::update(g, event))));
+    let r = match r {
+        Ok(r) => r,
+        Err(e) => std::panic::resume_unwind(e),
+    };
+    match r {
+        Err(p) => {
+            exec::trace(|| format!("update({}) PANIC {}:{} {}", what, p.file, p.line, p.msg));
+            if p.file.contains("/verif/") || p.env_limit() {
+                sh.borrow_mut().set(Violation::new("harness", "driver-panic", format!("{}:{} {}", p.file, p.line, p.msg)));
+            } else {
+                sh.borrow_mut().set(Violation::new(
+                    "c17.1-panic",
+                    format!("update:{}", p.short_loc()),
+                    format!("handling key {} with {} rows displayed and selection {:?} panicked at {}:{}: {}", what, n, sel, p.file, p.line, p.msg),
+                ));
+            }
+            // the terminal task dies, as it would
+            std::panic::resume_unwind(Box::new(format!("update() panicked at {}:{}: {}", p.file, p.line, p.msg)));
+        }
+        Ok(Err(e)) => return Err(e),
+        Ok(Ok(())) => {}
+    }
+    // clause 2: selection in range afterwards (given it was before)
+    if pre_ok && !in_range(g, shown) {
+        sh.borrow_mut().set(Violation::new(
+            "c17.2-selection",
+            format!("after-{}", if n == 0 { "key-on-empty-table" } else { "key-on-nonempty-table" }),
+            format!("after key {} the selection is {:?} with {} rows displayed (it was {:?})", what, g.state.selected(), shown.unwrap_or(g.items.len()), sel),
+        ));
+    }
+    // clause 3: flags follow the documented key map
+    let want = match &key {
+        Some(code) => model(pre_flags.clone(), code),
+        None => pre_flags.clone(),
+    };
+    let got = flags_of(g);
+    if !flags_differ(&got, &want) && got.query != want.query {
+        sh.borrow_mut().count("search_text_differs_from_plain_editing");
+    }
+    if flags_differ(&got, &want) {
+        let field = if got.quit != want.quit {
+            "should_quit"
+        } else if got.search != want.search {
+            "is_search_mode"
+        } else if got.sort != want.sort {
+            "sort_key"
+        } else {
+            "sort_asc"
+        };
+        sh.borrow_mut().set(Violation::new(
+            "c17.3-flags",
+            field.to_string(),
+            format!("key {} in {} mode: flags became {:?}, the documented key map gives {:?}", if key.is_some() { what.clone() } else { "tick/error".to_string() }, if pre_flags.search { "search" } else { "normal" }, got, want),
+        ));
+    }
+    {
+        let mut s = sh.borrow_mut();
+        if got.search && !pre_flags.search {
+            s.count("search_mode_entered");
+        }
+        if got.sort != pre_flags.sort {
+            s.count("sort_key_changed");
+        }
+        if got.quit && !pre_flags.quit {
+            s.count("quit_by_key");
+            s.quit_seen_at_step = Some(exec::step());
+        }
+    }
+    Ok(())
+}
+
+/// The real `build_table()` with the bookkeeping and the after-draw clause.
+pub fn hooked_draw(frame: &mut ratatui::Frame, g: &mut Jet1090) {
+    let sh = hook_shared();
+    let before_rows = g.items.len();
+    let sel_before = g.state.selected();
+    let area = frame.area();
+    let r = exec::catch("draw", || crate::table::build_table(frame, g));
+    if let Err(p) = r {
+        if p.file.contains("/verif/") || p.env_limit() {
+            sh.borrow_mut().set(Violation::new("harness", "driver-panic", format!("{}:{} {}", p.file, p.line, p.msg)));
+        } else {
+            sh.borrow_mut().set(Violation::new(
+                "c17.1-panic",
+                format!("draw:{}", p.short_loc()),
+                format!("drawing the table on a {}x{} terminal (width flag {}) panicked at {}:{}: {}", area.width, area.height, g.width, p.file, p.line, p.msg),
+            ));
+        }
+        std::panic::resume_unwind(Box::new(format!("build_table() panicked at {}:{}: {}", p.file, p.line, p.msg)));
+    }
+    let shown = rows_on_screen(frame.buffer_mut());
+    TUI_HOOK.with(|h| {
+        if let Some(h) = h.borrow_mut().as_mut() {
+            h.shown = shown;
+        }
+    });
+    let mut s = sh.borrow_mut();
+    s.drew_once = true;
+    s.count("draws");
+    let rows = g.items.len() as u64;
+    if rows > 0 {
+        s.count("draws_with_rows");
+    }
+    if rows > s.max_rows {
+        s.max_rows = rows;
+    }
+    if (rows as usize) < before_rows {
+        s.count("row_aged_out");
+        s.perturbed = true;
+        if sel_before.map_or(false, |i| i >= rows as usize) {
+            s.count("rows_disappeared_while_selected");
+        }
+    }
+    if (rows as usize) > before_rows {
+        s.perturbed = true;
+    }
+    if shown.is_some() {
+        s.count("rows_read_back_from_screen");
+        if shown != Some(g.items.len()) {
+            s.count("screen_rows_differ_from_item_list");
+        }
+    }
+    if !g.search_query.is_empty() && shown.map_or(false, |n| n > 0 && n < g.state_vectors.len()) {
+        s.count("search_hides_some_rows");
+    }
+    if !in_range(g, shown) {
+        // the draw is part of handling the event (same loop turn):
+        // "afterwards the selected row index is 0 when the table is
+        // empty and otherwise less than the number of rows"
+        s.count("selection_out_of_range_after_draw");
+        let n = shown.unwrap_or(g.items.len());
+        s.set(Violation::new(
+            "c17.2-selection",
+            format!("after-draw-of-{}-table", if n == 0 { "empty" } else { "nonempty" }),
+            format!("after the draw that follows the event the selection is {:?} with {} rows displayed (before the draw: {:?} with {} rows)", g.state.selected(), n, sel_before, before_rows),
+        ));
+    }
+    if area.width < 5 || area.height < 4 {
+        s.count("tiny_terminal");
+    }
+    exec::log_u64(0x0F00_0000 | g.items.len() as u64);
+}
+
+/// Spawn the event reader and the terminal task. When the closures of main() and
+/// of tui.rs could be taken from the repository's own text (realtui.rs) those
+/// run; otherwise the re-stated versions below.
 pub fn spawn_tui(
+    sim: &mut Sim,
+    app: &Arc<Mutex<Jet1090>>,
+    events: &[TimedEv],
+    term_w: u16,
+    term_h: u16,
+    shared: &Rc<RefCell<Shared>>,
+) -> exec::TaskId {
+    TUI_HOOK.with(|h| *h.borrow_mut() = Some(TuiHook { shared: shared.clone(), shown: None }));
+    if super::realtui::available() {
+        return super::realtui::spawn(sim, app, events, term_w, term_h, shared);
+    }
+    spawn_tui_stub(sim, app, events, term_w, term_h, shared)
+}
+
+/// Event reader (stub) and terminal task (re-stated loop of main.rs:346-362
+/// around the real update() and build_table()).
+pub fn spawn_tui_stub(
     sim: &mut Sim,
     app: &Arc<Mutex<Jet1090>>,
     events: &[TimedEv],
@@ -570,9 +795,6 @@ pub fn spawn_tui(
 ) -> exec::TaskId {
     let app = app.clone();
     let shared = shared.clone();
-    // ---- event source (stub of tui::EventHandler's reader task) -----------
-    // resize events change the backend size right away (the terminal is what
-    // it is) and the width carried by later ticks
     enum ToTui {
         Event(Event),
         Resize(u16, u16),
@@ -636,218 +858,41 @@ pub fn spawn_tui(
             }
         });
     }
-
-    // ---- TUI task: re-stated loop of main.rs:346-362 around the real update()
-    // and the real build_table() ----------------------------------------------
-    let tui_task = {
-        let app_tui = app.clone();
-        let sh = shared.clone();
-        let (w, h) = (term_w, term_h);
-        sim.spawn("tui-loop(stub)+update/build_table(real)", async move {
-            let mut terminal = match Terminal::new(TestBackend::new(w, h)) {
-                Ok(t) => t,
-                Err(_) => return,
-            };
-            // rows put on the screen by the last draw, read back from the frame
-            let mut shown: Option<usize> = None;
-            loop {
-                match ev_rx.recv().await {
-                    Some(ToTui::Resize(w, h)) => {
-                        terminal.backend_mut().resize(w, h);
-                        continue;
-                    }
-                    Some(ToTui::Event(event)) => {
-                        let mut g = app_tui.lock().await;
-                        let pre_ok = in_range(&g, shown);
-                        let pre_flags = flags_of(&g);
-                        let n = shown.unwrap_or(g.items.len());
-                        let sel = g.state.selected();
-                        let key = match &event {
-                            Event::Key(k) => Some(k.code),
-                            _ => None,
-                        };
-                        if let Some(code) = &key {
-                            let mut s = sh.borrow_mut();
-                            s.keys_handled += 1;
-                            if !s.drew_once {
-                                s.count("key_before_first_draw");
-                                s.perturbed = true;
-                            }
-                            let nav = matches!(code, KeyCode::Char('j') | KeyCode::Char('k') | KeyCode::Up | KeyCode::Down) && (!pre_flags.search || matches!(code, KeyCode::Up | KeyCode::Down));
-                            if nav {
-                                if n == 0 {
-                                    s.count("nav_on_empty_table");
-                                } else {
-                                    s.count("nav_on_nonempty_table");
-                                    if sel == Some(n - 1) || sel == Some(0) {
-                                        s.count("wrap_around");
-                                    }
-                                }
-                            }
-                        }
-                        exec::log_u64(0x0E00_0000 | key.map(|k| crate_hash_key(&k)).unwrap_or(0));
-                        sh.borrow_mut().count("updates");
-                        let r = exec::catch("update", || crate::update(&mut g, event));
-                        match r {
-                            Err(p) => {
-                                let what = key.as_ref().map(key_name).unwrap_or("tick".into());
-                                exec::trace(|| format!("update({}) PANIC {}:{} {}", what, p.file, p.line, p.msg));
-                                if p.file.contains("/verif/") || p.env_limit() {
-                                    sh.borrow_mut().set(Violation::new("harness", "driver-panic", format!("{}:{} {}", p.file, p.line, p.msg)));
-                                } else {
-                                    sh.borrow_mut().set(Violation::new(
-                                        "c17.1-panic",
-                                        format!("update:{}", p.short_loc()),
-                                        format!(
-                                            "handling key {} with {} rows displayed and selection {:?} panicked at {}:{}: {}",
-                                            what, n, sel, p.file, p.line, p.msg
-                                        ),
-                                    ));
-                                }
-                                return; // the TUI task dies, as it would
-                            }
-                            Ok(Err(_)) => return,
-                            Ok(Ok(())) => {}
-                        }
-                        // clause 2: selection in range afterwards (given it was before)
-                        if pre_ok && !in_range(&g, shown) {
-                            let what = key.as_ref().map(key_name).unwrap_or("tick".into());
-                            sh.borrow_mut().set(Violation::new(
-                                "c17.2-selection",
-                                format!("after-{}", if n == 0 { "key-on-empty-table" } else { "key-on-nonempty-table" }),
-                                format!("after key {} the selection is {:?} with {} rows displayed (it was {:?})", what, g.state.selected(), shown.unwrap_or(g.items.len()), sel),
-                            ));
-                        }
-                        // clause 3: flags follow the documented key map
-                        let want = match &key {
-                            Some(code) => model(pre_flags.clone(), code),
-                            None => pre_flags.clone(),
-                        };
-                        let got = flags_of(&g);
-                        if !flags_differ(&got, &want) && got.query != want.query {
-                            sh.borrow_mut().count("search_text_differs_from_plain_editing");
-                        }
-                        if flags_differ(&got, &want) {
-                            let what = key.as_ref().map(key_name).unwrap_or("tick/error".into());
-                            let field = if got.quit != want.quit {
-                                "should_quit"
-                            } else if got.search != want.search {
-                                "is_search_mode"
-                            } else if got.sort != want.sort {
-                                "sort_key"
-                            } else if got.asc != want.asc {
-                                "sort_asc"
-                            } else {
-                                "search_query"
-                            };
-                            sh.borrow_mut().set(Violation::new(
-                                "c17.3-flags",
-                                field.to_string(),
-                                format!("key {} in {} mode: flags became {:?}, the documented key map gives {:?}", what, if pre_flags.search { "search" } else { "normal" }, got, want),
-                            ));
-                        }
-                        {
-                            let mut s = sh.borrow_mut();
-                            if got.search && !pre_flags.search {
-                                s.count("search_mode_entered");
-                            }
-                            if got.sort != pre_flags.sort {
-                                s.count("sort_key_changed");
-                            }
-                            if got.quit && !pre_flags.quit {
-                                s.count("quit_by_key");
-                                s.quit_seen_at_step = Some(exec::step());
-                            }
-                        }
-                        drop(g);
-                    }
-                    None => break, // event reader gone
+    let app_tui = app.clone();
+    let sh = shared.clone();
+    let (w, h) = (term_w, term_h);
+    sim.spawn("tui-loop(stub)+update/build_table(real)", async move {
+        let mut terminal = match Terminal::new(TestBackend::new(w, h)) {
+            Ok(t) => t,
+            Err(_) => return,
+        };
+        loop {
+            match ev_rx.recv().await {
+                Some(ToTui::Resize(w, h)) => {
+                    terminal.backend_mut().resize(w, h);
+                    continue;
                 }
-                let mut g = app_tui.lock().await;
-                if g.should_quit {
-                    break;
-                }
-                if g.should_clear {
-                    let _ = terminal.clear();
-                    g.should_clear = false;
-                }
-                let before_rows = g.items.len();
-                let sel_before = g.state.selected();
-                let r = exec::catch("draw", || {
-                    terminal.draw(|frame| crate::table::build_table(frame, &mut g)).map(|_| ())
-                });
-                match r {
-                    Err(p) => {
-                        if p.file.contains("/verif/") || p.env_limit() {
-                            sh.borrow_mut().set(Violation::new("harness", "driver-panic", format!("{}:{} {}", p.file, p.line, p.msg)));
-                        } else {
-                            let sz = terminal.backend().buffer().area;
-                            sh.borrow_mut().set(Violation::new(
-                                "c17.1-panic",
-                                format!("draw:{}", p.short_loc()),
-                                format!("drawing the table on a {}x{} terminal (width flag {}) panicked at {}:{}: {}", sz.width, sz.height, g.width, p.file, p.line, p.msg),
-                            ));
-                        }
+                Some(ToTui::Event(event)) => {
+                    if hooked_update(&mut app_tui.lock().await, event).is_err() {
                         return;
                     }
-                    Ok(_) => {}
                 }
-                {
-                    let mut s = sh.borrow_mut();
-                    s.drew_once = true;
-                    s.count("draws");
-                    let rows = g.items.len() as u64;
-                    if rows > 0 {
-                        s.count("draws_with_rows");
-                    }
-                    if rows > s.max_rows {
-                        s.max_rows = rows;
-                    }
-                    if (rows as usize) < before_rows {
-                        s.count("row_aged_out");
-                        s.perturbed = true;
-                        if sel_before.map_or(false, |i| i >= rows as usize) {
-                            s.count("rows_disappeared_while_selected");
-                        }
-                    }
-                    if (rows as usize) > before_rows {
-                        s.perturbed = true;
-                    }
-                    shown = rows_on_screen(terminal.backend().buffer());
-                    if shown.is_some() {
-                        s.count("rows_read_back_from_screen");
-                        if shown != Some(g.items.len()) {
-                            s.count("screen_rows_differ_from_item_list");
-                        }
-                    }
-                    if !g.search_query.is_empty() && shown.map_or(false, |n| n > 0 && n < g.state_vectors.len()) {
-                        s.count("search_hides_some_rows");
-                    }
-                    if !in_range(&g, shown) {
-                        // the draw is part of handling the event (same loop turn):
-                        // "afterwards the selected row index is 0 when the table is
-                        // empty and otherwise less than the number of rows"
-                        s.count("selection_out_of_range_after_draw");
-                        let n = shown.unwrap_or(g.items.len());
-                        s.set(Violation::new(
-                            "c17.2-selection",
-                            format!("after-draw-of-{}-table", if n == 0 { "empty" } else { "nonempty" }),
-                            format!("after the draw that follows the event the selection is {:?} with {} rows displayed (before the draw: {:?} with {} rows)", g.state.selected(), n, sel_before, before_rows),
-                        ));
-                    }
-                    let a = terminal.backend().buffer().area;
-                    if a.width < 5 || a.height < 4 {
-                        s.count("tiny_terminal");
-                    }
-                }
-                exec::log_u64(0x0F00_0000 | g.items.len() as u64);
-                drop(g);
+                None => break, // event reader gone
             }
-            sh.borrow_mut().tui_ended = true;
-        })
-    };
-
-    tui_task
+            let mut g = app_tui.lock().await;
+            if g.should_quit {
+                break;
+            }
+            if g.should_clear {
+                let _ = terminal.clear();
+                g.should_clear = false;
+            }
+            if terminal.draw(|frame| hooked_draw(frame, &mut g)).is_err() {
+                return;
+            }
+        }
+        sh.borrow_mut().tui_ended = true;
+    })
 }
 
 /// The expiry sweep of main.rs:368-403 (a closure inlined in main(), re-stated;
@@ -894,6 +939,7 @@ pub fn execute(plan: &C17Plan) -> Outcome<C17Plan> {
     let app = Arc::new(Mutex::new(app::new_app(plan.term_w)));
     let shared = Rc::new(RefCell::new(Shared::new()));
 
+    super::realtui::reset();
     let tui_task = spawn_tui(&mut sim, &app, &plan.events, plan.term_w, plan.term_h, &shared);
 
     // ---- decoder: rows appear through the real update_snapshot --------------
@@ -935,8 +981,14 @@ pub fn execute(plan: &C17Plan) -> Outcome<C17Plan> {
     }
     // ---- expiry sweep (re-stated from main.rs:368-403, simulated clock) -----
     if plan.sweep_period_s > 0 {
-        let horizon = plan.events.iter().map(|e| e.at_ns).max().unwrap_or(0) + 2_000_000_000;
-        spawn_sweep(&mut sim, &app, plan.sweep_period_s, plan.expire_min, horizon, &shared);
+        if super::realtui::expiry_available() {
+            // main()'s own expiry task (every 60 s); cancelled with the session
+            super::realtui::spawn_expiry(&mut sim, &app, plan.expire_min);
+            shared.borrow_mut().count("expiry_sweep");
+        } else {
+            let horizon = plan.events.iter().map(|e| e.at_ns).max().unwrap_or(0) + 2_000_000_000;
+            spawn_sweep(&mut sim, &app, plan.sweep_period_s, plan.expire_min, horizon, &shared);
+        }
     }
     // ---- lock-holder ---------------------------------------------------------
     if !plan.holds.is_empty() {
@@ -958,8 +1010,16 @@ pub fn execute(plan: &C17Plan) -> Outcome<C17Plan> {
         });
     }
 
-    let cap = 5_000 + 40 * plan.events.len() as u64 + 20 * plan.feeds.len() as u64;
-    let end = sim.run(cap, |_, _, _| true);
+    // (the reader's own interval ticks every 250 ms of simulated time)
+    let span_ns = plan.events.iter().map(|e| e.at_ns).max().unwrap_or(0);
+    let cap = 8_000 + 60 * plan.events.len() as u64 + 20 * plan.feeds.len() as u64 + 16 * (span_ns / 250_000_000);
+    let end = sim.run(cap, |s, id, done| {
+        if done && id == tui_task {
+            // the process would exit: the reader and the expiry task go with it
+            super::realtui::cancel_endless(s);
+        }
+        true
+    });
     out.steps = sim.steps;
     out.sim_ns = exec::now_ns();
 
